@@ -19,19 +19,19 @@ All == Node
 ActorsElection == [Tick |-> {}, Campaign |-> {1, 2}, Propose |-> {1, 2}, ProposeConfChange |-> {}, ReadIndex |-> {},
                    Crash |-> {1, 2}, TransferLeader |-> {}, ForgetLeader |-> {}, ReportUnreachable |-> {}, ReportSnapshot |-> {}]
 BoundSmall == [Tick |-> 0, Campaign |-> 2, Propose |-> 1, ProposeConfChange |-> 0, ReadIndex |-> 0, Crash |-> 1, Dup |-> 1, Drop |-> 0,
-               Snapshot |-> 0, Compact |-> 0, TransferLeader |-> 0, ForgetLeader |-> 0, ReportUnreachable |-> 0, ReportSnapshot |-> 0, Defer |-> 0,
+               Snapshot |-> 0, Compact |-> 0, TransferLeader |-> 0, ForgetLeader |-> 0, ReportUnreachable |-> 0, ReportSnapshot |-> 0, Defer |-> 0, Atomic |-> 0,
                Term |-> 2, Index |-> 3, Net |-> 4]
 ActorsOne == [Tick |-> {}, Campaign |-> {1}, Propose |-> {1}, ProposeConfChange |-> {}, ReadIndex |-> {},
               Crash |-> {2}, TransferLeader |-> {}, ForgetLeader |-> {}, ReportUnreachable |-> {}, ReportSnapshot |-> {}]
 BoundTiny == [Tick |-> 0, Campaign |-> 1, Propose |-> 1, ProposeConfChange |-> 0, ReadIndex |-> 0, Crash |-> 0, Dup |-> 0, Drop |-> 0,
-              Snapshot |-> 0, Compact |-> 0, TransferLeader |-> 0, ForgetLeader |-> 0, ReportUnreachable |-> 0, ReportSnapshot |-> 0, Defer |-> 0,
+              Snapshot |-> 0, Compact |-> 0, TransferLeader |-> 0, ForgetLeader |-> 0, ReportUnreachable |-> 0, ReportSnapshot |-> 0, Defer |-> 0, Atomic |-> 0,
               Term |-> 1, Index |-> 3, Net |-> 4]
 BoundTinyCrash == [BoundTiny EXCEPT !.Crash = 1]
 BoundTinyDup == [BoundTiny EXCEPT !.Dup = 1]
 ActorsTwo == [Tick |-> {}, Campaign |-> {1, 2}, Propose |-> {1, 2}, ProposeConfChange |-> {}, ReadIndex |-> {},
               Crash |-> {1, 2}, TransferLeader |-> {}, ForgetLeader |-> {}, ReportUnreachable |-> {}, ReportSnapshot |-> {}]
 BoundS2 == [Tick |-> 0, Campaign |-> 2, Propose |-> 1, ProposeConfChange |-> 0, ReadIndex |-> 0, Crash |-> 1, Dup |-> 1, Drop |-> 0,
-            Snapshot |-> 0, Compact |-> 0, TransferLeader |-> 0, ForgetLeader |-> 0, ReportUnreachable |-> 0, ReportSnapshot |-> 0, Defer |-> 0,
+            Snapshot |-> 0, Compact |-> 0, TransferLeader |-> 0, ForgetLeader |-> 0, ReportUnreachable |-> 0, ReportSnapshot |-> 0, Defer |-> 0, Atomic |-> 0,
             Term |-> 2, Index |-> 3, Net |-> 4]
 WeakenSet == {}
 Psz1 == {3}
